@@ -165,4 +165,31 @@ CHECKS = {
              "thorough": {"checks": 40000, "shards": 16, "timeout": 3400}},
         ],
     },
+    "C06": {
+        "level": "exploration",
+        "level_text": ("Parser layer: for valid sidecars produced by the production writer EVERY single-bit flip and EVERY truncation is "
+                       "enumerated (plus rapid-generated garbage, prefix+garbage, spliced halves, byte edits): LoadSidecar must not panic "
+                       "and may only accept bytes that decode to the original value. Transfer layer: a generated partial output (files "
+                       "with a drawn set of chunks present and marked) is tampered with (sidecar truncated / flipped / garbage / foreign "
+                       "id, size or chunk size with all chunks marked; data file deleted or shortened; highest or a lower marked chunk "
+                       "damaged on disk; chunk size changed) and resumed through the real endpoints with the sender's verification hash "
+                       "delayed by a drawn amount. Oracle: success implies an identical tree (else the endpoints must fail); a damaged "
+                       "highest chunk must be repaired when hashing is on."),
+        "level_note": "Trusted: CRC32C/xxhash collisions ignored (2^-32); the prior state is constructed by the harness with the production sidecar writer; lower-chunk damage is a counted negative control only.",
+        "technique": "bounded-exhaustive mutation (all bit flips/truncations) of valid sidecars + property-based resumed transfers over tampered prior state with whole-tree oracle (rapid)",
+        "rule": ("parser: all single-bit flips and truncations of 5 (thorough 60) valid sidecars + rapid damage kinds; transfer: case = "
+                 "tree x chunk x streams x root mode x hash alg x prior marks x tamper kind/position x hash delay. Non-trivial = a file "
+                 "with >= 2 marked and >= 1 unmarked chunk (transfer) / every enumerated sidecar (parser); distinct by tamper kind, "
+                 "position class, delay and workload fingerprint."),
+        "assumptions": ["hash collisions are not searched for"],
+        "exhaustive_if_units": ["parser"],
+        "units": [
+            {"name": "transfer", "pkg": T, "run": "^TestVerifC06",
+             "quick": {"checks": 2000, "shards": 2, "timeout": 900},
+             "thorough": {"checks": 20000, "shards": 16, "timeout": 3400}},
+            {"name": "xfer", "pkg": X, "run": "^TestVerifC06",
+             "quick": {"checks": 300, "shards": 6, "timeout": 900},
+             "thorough": {"checks": 2500, "shards": 16, "timeout": 3400}},
+        ],
+    },
 }
